@@ -4,7 +4,13 @@ package main
 // escaping in JSON (or are otherwise unusual).  Added after the seeded change
 // C07-object-type-json-attr-names-go-quoted was missed: the generated attribute names were all letters.
 
-import "github.com/zclconf/go-cty/cty"
+import (
+	"strconv"
+
+	"github.com/zclconf/go-cty/cty"
+)
+
+func goQuote(s string) string { return strconv.QuoteToASCII(s) }
 
 var c07OddNames = []string{
 	"",
@@ -63,7 +69,53 @@ func c07OddNameTypes() []cty.Type {
 	return out
 }
 
+// c07OptionalSpellings: an optional attribute named in ANY spelling is the attribute of the normalised
+// name (cty normalises attribute names to NFC): the type equals the one built from the normalised
+// spelling, differs from the type without optional attributes, loses the annotation when stripped, and
+// its optional set names declared attributes only.  (A seeded change stored the caller's raw spelling in
+// the optional set: the correspondence saw it, no predicate did.)
+func c07OptionalSpellings(ctx *Ctx) {
+	for _, n := range c07OddNames {
+		nn := cty.NormalizeString(n)
+		atys := map[string]cty.Type{n: cty.Number, "a": cty.Bool}
+		if nn == "a" {
+			continue
+		}
+		var raw, nfc, plain cty.Type
+		if p, _ := try(func() {
+			raw = cty.ObjectWithOptionalAttrs(atys, []string{n})
+			nfc = cty.ObjectWithOptionalAttrs(map[string]cty.Type{nn: cty.Number, "a": cty.Bool}, []string{nn})
+			plain = cty.Object(atys)
+		}); p {
+			continue
+		}
+		ctx.Eval("optional-spelling "+encStr(n), n != nn)
+		ctx.Tag("optional-spelling")
+		fail := func(sig, what string) {
+			ctx.Fail(Failure{Site: "optional-names", Sig: sig, What: what, Input: "(O-opt " + encStr(n) + ")",
+				GoLit: "cty.ObjectWithOptionalAttrs(map[string]cty.Type{" + goQuote(n) + ": cty.Number, \"a\": cty.Bool}, []string{" + goQuote(n) + "})", Outcome: encTy(raw)})
+		}
+		switch {
+		case !raw.Equals(nfc) || !nfc.Equals(raw):
+			fail("spelling-changes-the-type", "an object type whose optional attribute is named in a non-normalised spelling does not equal the type built from the normalised spelling")
+		case raw.Equals(plain):
+			fail("optional-annotation-lost", "an object type with an optional attribute equals the type without optional attributes")
+		case !raw.WithoutOptionalAttributesDeep().Equals(plain) || raw.WithoutOptionalAttributesDeep().Equals(raw):
+			fail("strip-does-not-strip", "WithoutOptionalAttributesDeep does not give the plain object type")
+		case !raw.AttributeOptional(nn):
+			fail("optional-attribute-not-optional", "the attribute named optional is not reported as optional")
+		default:
+			for k := range raw.OptionalAttributes() {
+				if !raw.HasAttribute(k) {
+					fail("optional-set-names-undeclared-attribute", "OptionalAttributes names an attribute the type does not declare")
+				}
+			}
+		}
+	}
+}
+
 func c07OddNames_run(ctx *Ctx) {
+	c07OptionalSpellings(ctx)
 	ts := c07OddNameTypes()
 	for i, t := range ts {
 		ctx.Tag("oddname")
